@@ -1,5 +1,6 @@
 import GateryModel.C12.LemmasInfer
 import GateryModel.C12.LemmasDom
+import GateryModel.C12.OrderDependence
 /-!
 # C12 — property theorems
 
@@ -50,6 +51,19 @@ theorem dom_is_grounded (g : Graph) (hc : g.Closed) (hacyc : g.Acyclic) : Ground
 theorem admissible_is_grounded (g : Graph) (D : Nat → Dom) (hc : g.Closed) (hacyc : g.Acyclic) (ha : Admissible g D) :
     Grounded g D :=
   grounded_of_acyclic hc hacyc ha
+
+/-- **`infer = dom` does not hold** (so confluence is stated for the verdict, and for the map only up to pin source on
+    accepted designs): there is an acyclic graph and two visiting orders, both executed exactly as the code does
+    (smallest `NodePort` first), whose resulting maps differ at a port; one of them differs from the denotational map. -/
+theorem map_is_order_dependent :
+    ∃ (g : Graph) (o₁ o₂ : List Nat) (σ₁ σ₂ : St) (p : Nat), g.Closed ∧ g.Acyclic ∧
+      (∀ q, q < g.ports.size → q ∈ o₁) ∧ (∀ q, q < g.ports.size → q ∈ o₂) ∧
+      Run g o₁ {} σ₁ ∧ Run g o₂ {} σ₂ ∧ p < g.ports.size ∧ σ₁.total p ≠ σ₂.total p ∧ σ₂.total p ≠ dom g p := by
+  obtain ⟨σ₁, h1, e1⟩ := exOD_infer_012
+  obtain ⟨σ₂, h2, e2⟩ := exOD_infer_120
+  refine ⟨exOD, [0, 1, 2], [1, 2, 0], σ₁, σ₂, 2, exOD_wf.1, exOD_wf.2, by decide, by decide, infer_run h1, infer_run h2, by decide, ?_, ?_⟩
+  · rw [e1, e2]; decide
+  · rw [e2, exOD_dom]; decide
 
 /-- **Soundness and completeness in one statement.** For every grounded fixed point `D`, post-processing
     rejects (some node fails `checkValidInputClocks`) **iff** the design contains a crossing in the path sense: a
